@@ -47,16 +47,16 @@ func (w *slowWriter) Write(p []byte) (int, error) {
 func TestC16Conc(t *testing.T) {
 	rec := vk.New("C16", "conc")
 	defer rec.Finish(t)
-	rec.Rule("case = 8-16 goroutines each encoding 300 (thorough 3000) packets of the types the broker emits (PUBLISH with payloads 0..40 KB and topics of their own, SUBACK, PUBACK, UNSUBACK, CONNACK, PINGRESP) with EncodeTo into their own slow writer at the same time; each goroutine's output is split and decoded by paho and must be exactly its own packets, in order, with their own field values; " +
+	rec.Rule("case = 8-16 goroutines each encoding 300 (thorough 1200) packets of the types the broker emits (PUBLISH with payloads 0..40 KB and topics of their own, SUBACK, PUBACK, UNSUBACK, CONNACK, PINGRESP) with EncodeTo into their own slow writer at the same time; each goroutine's output is split and decoded by paho and must be exactly its own packets, in order, with their own field values; " +
 		"non-trivial = every case (>=8 concurrent encoders); distinct = hash of (goroutines, packet plan)")
-	n := vk.N(12, 300)
+	n := vk.N(12, 96)
 	for ci := 0; ci < n; ci++ {
 		if !vk.Mine(ci) {
 			continue
 		}
 		r := vk.NewRand(vk.Seed(), "C16conc", ci)
 		ng := r.Range(8, 16)
-		per := vk.N(300, 3000)
+		per := vk.N(300, 1200)
 		type result struct {
 			bad string
 		}
